@@ -81,6 +81,8 @@ PINS = [
     'mesonbuild.interpreter.interpreterobjects:SubprojectHolder',
     'mesonbuild.mparser:Parser',
     'mesonbuild.mparser:StringNode',
+    'mesonbuild.mparser:Lexer',
+    'mesonbuild.mparser:decode_match',
     'mesonbuild.utils.universal:underscorify',
 ]
 TRUSTED = [
@@ -162,7 +164,10 @@ def _task(t: T.Tuple[str, int, int, bool]) -> dict:
             v = c01_oracle.oracle_keys(im, rng, n)
         elif name == 'escapes':
             v = c01_oracle.oracle_escapes(im)
-            n = 2 * len(c01_oracle.ESCAPES)
+            v2, reached, n2 = c01_oracle.oracle_escape_product(im)
+            v = v + v2
+            n = 2 * len(c01_oracle.ESCAPES) + n2
+            res['string_kinds'] = (sorted(c01_oracle.string_token_kinds(im)), sorted(reached))
         elif name == 'parse_laws':
             v = c01_oracle.oracle_parse_laws(im, rng, n)
         elif name == 'precedence_values':
@@ -191,6 +196,9 @@ def _task(t: T.Tuple[str, int, int, bool]) -> dict:
             except Exception:
                 res['parse_errors'] += 1
                 continue
+            res['viol'] += c01_oracle.check_string_nodes(im, code, ast)
+            for rel, txt in files.items():
+                res['viol'] += c01_oracle.check_string_nodes(im, txt, fasts[rel])
             try:
                 ans, viol = c01_oracle.run_stepwise(im, code, ast, files)
             except (MemoryError, RecursionError):
@@ -214,6 +222,7 @@ def _task(t: T.Tuple[str, int, int, bool]) -> dict:
         except c01_impl.Unserialisable:
             res['unser'] += 1
             continue
+        res['viol'] += c01_oracle.check_string_nodes(im, code, ast)
         try:
             ans, viol = c01_oracle.run_stepwise(im, code, ast)
         except (MemoryError, RecursionError):   # a value too large to snapshot/print under the worker's limit
@@ -403,6 +412,12 @@ def run(ctx: Ctx) -> None:
         ctx.tag('oracle-checks', r['oracle_checks'])
         for key, what, case in r['viol']:
             ctx.violation(key, what, case)
+        if 'string_kinds' in r:
+            have, reached = r['string_kinds']
+            ctx.extra['string_token_kinds'] = {'lexer': have, 'reached_by_escape_oracle': reached}
+            missing = [k for k in have if k not in reached]
+            if missing:
+                ctx.obligation_failed('string-token-kinds', f'the lexer has string token kinds the escape oracle never produced: {missing}')
     compare(ctx, cases)
     try:
         coverage_report(ctx)
@@ -537,6 +552,13 @@ def _still_fails(im: c01_impl.Impl, rep: dict) -> bool:
     ok, vs, ans = c01_oracle.ev(im, code)
     if fam in MUST_FAIL:
         return ok                       # these programs must be rejected
+    if fam == 'literal-value':
+        try:
+            return bool(c01_oracle.check_string_nodes(im, code, im.parse(code)))
+        except Exception:
+            return True
+    if fam in ('escape', 'raw') and 'expected' in case:
+        return not (ok and vs and vs.get('x') == case['expected'])
     if fam.startswith('container-eq'):
         return bool(ok and vs and vs.get('x') is True)
     if fam == 'dict-literal-kwargs':
